@@ -206,6 +206,19 @@ func (g *gen) receiveCase(w *world) {
 		if l.a.keyIdx >= 0 {
 			l.enqueue(l.b, []otr3.ValidMessage{w.query(l.b)})
 			l.settle(40)
+		} else {
+			// no long-term key: every attempt at a key exchange must fail with an error, not crash
+			// (the first query is refused, a second one gets further)
+			for i := 0; i < 2 && !w.dead; i++ {
+				l.enqueue(l.b, []otr3.ValidMessage{w.query(l.b)})
+				l.settle(40)
+				w.tick(61)
+			}
+			olog.ok("C13")
+			if w.dead {
+				olog.viol("C13", "panic-without-long-term-key", fmt.Sprintf("a conversation without a long-term key panicked during a key exchange the peer started (state %d)", state))
+				return
+			}
 		}
 	}
 	if w.dead {
@@ -259,11 +272,28 @@ func (g *gen) randFailureSweep(w *world, short bool) {
 			func() { ts, _ := w.send(b, g.cleanText()); l.enqueue(b, ts); l.settle(10) },
 			func() { ts, _ := w.end(a); l.enqueue(a, ts); l.settle(10) },
 		}
-		for _, s := range steps {
+		replayed := false
+		for i, s := range steps {
 			if w.dead {
 				break
 			}
 			s()
+			if i < len(steps)-1 && !replayed && !w.dead {
+				// a failed key rotation must not have reopened the window for anything a accepted
+				// before (C05 under randomness failure): replay everything after every step
+				olog.ok("C05")
+				for _, m := range l.seenA {
+					if !isDataWire(m) || w.dead {
+						continue
+					}
+					p, _, _, _ := w.recv(a, m)
+					if p != nil {
+						replayed = true
+						olog.viol("C05", "replay-delivered-after-randomness-failure", fmt.Sprintf("OTRv%d: after read %d (short=%v) of Conversation.Rand failed, a data message delivered before is accepted again: %q", version, k, short, p))
+						break
+					}
+				}
+			}
 		}
 		olog.ok("C13")
 		reads := a.rnd.reads
